@@ -139,6 +139,8 @@ class NameSanitizer:
             # fallback: split on non-alphanumerics
             words = re.split(r"\W+", name)
         module = "_".join(word.lower() for word in words if word)
+        if not module:  # If name was e.g. "" or "$"
+            module = "unnamed"
         # If it starts with a digit, prefix with underscore
         if module and module[0].isdigit():
             module = "_" + module
@@ -184,7 +186,7 @@ class NameSanitizer:
     def sanitize_tag_attr_name(tag: str) -> str:
         """Sanitize a tag for use as a snake_case attribute name (e.g., data_sources)."""
         attr = re.sub(r"[\W]+", "_", tag).lower()
-        return attr.strip("_")
+        return attr.strip("_") or "unnamed"
 
     @staticmethod
     def normalize_tag_key(tag: str) -> str:
@@ -210,6 +212,8 @@ class NameSanitizer:
         name = re.sub(r"[^0-9a-zA-Z_]", "_", name)
         # Lowercase and collapse multiple underscores
         name = re.sub(r"_+", "_", name).strip("_").lower()
+        if not name:  # If name was e.g. "" or "$"
+            name = "unnamed"
         # If it starts with a digit, prefix with underscore
         if name and name[0].isdigit():
             name = "_" + name
